@@ -1,6 +1,8 @@
 package c03
 
 import (
+	"verif/internal/engineseam"
+
 	"bytes"
 	"encoding/json"
 	"fmt"
@@ -12,7 +14,6 @@ import (
 	"github.com/wundergraph/graphql-go-tools/execution/graphql"
 	"github.com/wundergraph/graphql-go-tools/v2/pkg/astnormalization"
 	"github.com/wundergraph/graphql-go-tools/v2/pkg/astprinter"
-	"github.com/wundergraph/graphql-go-tools/v2/pkg/astvalidation"
 	"github.com/wundergraph/graphql-go-tools/v2/pkg/operationreport"
 	"github.com/wundergraph/graphql-go-tools/v2/pkg/variablesvalidation"
 )
@@ -69,17 +70,7 @@ func normalize(query string, vars []byte) (res normResult) {
 		req.Variables = append([]byte(nil), vars...)
 	}
 	// 1. normalize without variable extraction (as the engine does)
-	r1, err := req.Normalize(repoSchema,
-		astnormalization.WithRemoveFragmentDefinitions(),
-		astnormalization.WithRemoveUnusedVariables(),
-		astnormalization.WithInlineFragmentSpreads(),
-		astnormalization.WithEnableDefer(),
-		astnormalization.WithPrevalidationRules(
-			astvalidation.DeferStreamOnValidOperations(),
-			astvalidation.DeferStreamHaveUniqueLabels(),
-			astvalidation.DirectivesAreInValidLocations(),
-			astvalidation.StreamAppliedToListFieldsOnly()),
-	)
+	r1, err := req.Normalize(repoSchema, seamFirst...)
 	if err != nil || !r1.Successful {
 		return normResult{Stage: "Normalize (stage 1)", Err: errText(err, errsStringer{r1.Errors})}
 	}
@@ -89,7 +80,7 @@ func normalize(query string, vars []byte) (res normResult) {
 		return normResult{Stage: "ValidateForSchema", Err: errText(err, errsStringer{vr.Errors})}
 	}
 	// 3. extract variables
-	r2, err := req.Normalize(repoSchema, astnormalization.WithExtractVariables())
+	r2, err := req.Normalize(repoSchema, seamSecond...)
 	if err != nil || !r2.Successful {
 		return normResult{Stage: "Normalize (extract variables)", Err: errText(err, errsStringer{r2.Errors})}
 	}
@@ -267,3 +258,7 @@ func catch(f func()) (panicked bool, site, text string) {
 	f()
 	return
 }
+
+// The engine's admission sequence is read from the tree under test (see
+// internal/engineseam) instead of being copied here.
+var seam, seamFirst, seamSecond = engineseam.Must()
